@@ -51,12 +51,20 @@ def _tscale(spec):
     return m
 
 
-def run(spec0, rep, steps, tol=1e-9, direct=True):
+def run(spec0, rep, steps, tol=1e-9, direct=True, ffp=False):
     """returns (msgs, info) ; info: squares, excluded, ratio, chis"""
     msgs = []
     info = {"squares": 0, "excluded": 0, "ratio": 0.0, "states": 0}
     spec = copy.deepcopy(spec0)
+    if ffp:
+        # nothing pre-marked: fix_first_pose=True must mean the first LISTED vertex in both descriptions
+        spec0 = copy.deepcopy(spec0)
+        for sp in (spec, spec0):
+            for v in sp["vertices"]:
+                v["fixed"] = False
     fixed = [bool(v.get("fixed")) for v in spec["vertices"]]
+    if ffp:
+        fixed[0] = True
     for k in range(steps + 1):
         gA, vA, eA = GB.build(spec)
         ref = gn.step(vA, eA, fixed)
@@ -105,8 +113,11 @@ def run(spec0, rep, steps, tol=1e-9, direct=True):
                 msgs.append("state %d: after rewriting the vertex poses IN PLACE into the %s, chi2 is %.17g but a freshly built graph in that description has %.17g" % (k, rep.name, chiC, chiB))
             GB.optimize(gC, tol=0.0, max_iter=1, fix_first_pose=False)
         # one Gauss-Newton step on both sides
-        GB.optimize(gA, tol=0.0, max_iter=1, fix_first_pose=False)
-        GB.optimize(gB, tol=0.0, max_iter=1, fix_first_pose=False)
+        GB.optimize(gA, tol=0.0, max_iter=1, fix_first_pose=ffp)
+        GB.optimize(gB, tol=0.0, max_iter=1, fix_first_pose=ffp)
+        if ffp:
+            for sp_v, va in zip(spec["vertices"], vA):
+                sp_v["fixed"] = False  # the flag set by the call is not part of the next state's description
         snapA = GB.snapshot(vA)
         byidB = {v.id: v for v in vB}
         dxn = max([float(np.max(np.abs(d))) for d in ref["dx"] if d is not None] or [0.0])
